@@ -1,1 +1,93 @@
-import EoNVerif.Spec.Predicates
+import EoNVerif.Model.Investigation
+import EoNVerif.Proofs.Gillespie
+import EoNVerif.Proofs.GillespieOut
+import EoNVerif.Proofs.GillespieOut2
+import EoNVerif.Props.C01
+import EoNVerif.Props.C12
+import EoNVerif.Props.C13
+/-!
+C04 / C05 / C09 — target statements for the Gillespie_SIR / Gillespie_SIS model: the executable predicates
+`Pred.wellFormed`, `Pred.initialOK`, `Pred.transmissionsValid` hold of every output of the model.
+
+`Gillespie.TapeNonneg` (every `expovariate` value on the tape is non-negative) and `Gillespie.initName` (initial
+status names for the history model) are defined, unchanged, in `EoNVerif/Proofs/GillespieOut.lean`.
+-/
+namespace Gillespie
+open Pred Invest
+
+/-- counters of the model state track the statuses -/
+theorem counts_track (P : GParams) (h : WF P) (infs recs : List Node) (tmin : Rat) (tmax : ERat) (fuel cfuel : Nat)
+    (hi : infs.Nodup) (him : ∀ u ∈ infs, u ∈ P.nodes) (hrn : recs.Nodup) (hr : ∀ u ∈ recs, u ∈ P.nodes)
+    (hdis : ∀ u ∈ infs, u ∉ recs) (hsis : P.sis = true → recs = []) (ts ts' : TapeSt) (s' : GState)
+    (hrun : run P infs recs tmin tmax fuel cfuel ts = .ok (s', ts')) :
+    hd s'.S = ((P.nodes.filter fun u => s'.status u = St.S).length : Int) ∧
+    hd s'.I = ((P.nodes.filter fun u => s'.status u = St.I).length : Int) ∧
+    (P.sis = false → hd s'.R = ((P.nodes.filter fun u => s'.status u = St.R).length : Int)) :=
+  have hc := counts_run P h infs recs tmin tmax fuel cfuel hi him hrn hr hdis hsis ts ts' s' hrun
+  ⟨hc.cS, hc.cI, hc.cR⟩
+
+/-- **C04**: the returned arrays are well-formed -/
+theorem wf_gillespie (P : GParams) (h : WF P) (infs recs : List Node) (tmin : Rat) (tmax : ERat) (fuel cfuel : Nat)
+    (hi : infs.Nodup) (him : ∀ u ∈ infs, u ∈ P.nodes) (hrn : recs.Nodup) (hr : ∀ u ∈ recs, u ∈ P.nodes)
+    (hdis : ∀ u ∈ infs, u ∉ recs) (hsis : P.sis = true → recs = []) (htm : ERat.lt (some tmin) tmax = true)
+    (ts ts' : TapeSt) (hts : TapeNonneg ts) (s' : GState)
+    (hrun : run P infs recs tmin tmax fuel cfuel ts = .ok (s', ts')) :
+    wellFormed (if P.sis then TrajKind.sisCont else TrajKind.sirCont) P.nodes.length tmin tmax false false (gTraj P s') = true :=
+  trajInv_wellFormed P tmin tmax s'
+    (wf_run P h infs recs tmin tmax fuel cfuel hi him hrn hr hdis hsis htm ts ts' hts s' hrun).2
+
+/-- **C04, termination with no infected node**: when the loop stops before the horizon it is because no node is
+infectious (unbounded horizon, positive recovery rates: the loop's only other exit is total rate 0, which with
+`gamma·w_u > 0` for all `u` means no infectious node) -/
+theorem ends_without_infecteds (P : GParams) (h : WF P) (s : GState) (hs : Inv P s)
+    (hg : 0 < P.gamma) (hw : ∀ f, P.nw = some f → ∀ u, 0 < f u) (h0 : totalRate P s = 0) :
+    s.inf.items = [] :=
+  ends_without_infecteds' P h s hs hg hw h0
+
+set_option linter.unusedVariables false in -- only `hsis`, `h0` are needed
+/-- **C05**: row 0 is the requested initial condition -/
+theorem ic_gillespie (P : GParams) (h : WF P) (infs recs : List Node) (tmin : Rat)
+    (hi : infs.Nodup) (him : ∀ u ∈ infs, u ∈ P.nodes) (hrn : recs.Nodup) (hr : ∀ u ∈ recs, u ∈ P.nodes)
+    (hdis : ∀ u ∈ infs, u ∉ recs) (hsis : P.sis = true → recs = []) (s0 : GState) (h0 : init P infs recs tmin = some s0) :
+    initialOK P.nodes.length infs recs (Pred.row (gTraj P s0).cols 0) none (!P.sis) = true ∧
+    (∀ v, s0.status v = initStatus infs recs v) :=
+  ic_gillespie' P infs recs tmin hsis s0 h0
+
+set_option linter.unusedVariables false in -- `hr` is not needed
+/-- **C05**: initially recovered nodes are never infected later -/
+theorem recovered_never_infected (P : GParams) (h : WF P) (infs recs : List Node) (tmin : Rat) (tmax : ERat) (fuel cfuel : Nat)
+    (hi : infs.Nodup) (him : ∀ u ∈ infs, u ∈ P.nodes) (hr : ∀ u ∈ recs, u ∈ P.nodes)
+    (hdis : ∀ u ∈ infs, u ∉ recs) (hsis : P.sis = false) (ts ts' : TapeSt) (s' : GState)
+    (hrun : run P infs recs tmin tmax fuel cfuel ts = .ok (s', ts')) :
+    ∀ e ∈ s'.log, ∀ u v, e.2 = GEvent.transmit u v → v ∉ recs :=
+  recovered_never_infected' P h infs recs tmin tmax fuel cfuel hi him hdis hsis ts ts' s' hrun
+
+set_option linter.unusedVariables false in -- `hrn`, `hr` are not needed
+/-- **C09**: the transmission list of the model is causally valid and complete (SIR: a forest rooted at the initial
+nodes), for strictly positive waiting times -/
+theorem tv_gillespie (P : GParams) (h : WF P) (infs recs : List Node) (tmin : Rat) (tmax : ERat) (fuel cfuel : Nat)
+    (hi : infs.Nodup) (him : ∀ u ∈ infs, u ∈ P.nodes) (hrn : recs.Nodup) (hr : ∀ u ∈ recs, u ∈ P.nodes)
+    (hdis : ∀ u ∈ infs, u ∉ recs) (hsis : P.sis = true → recs = [])
+    (hrange : P.nodes = List.range P.nodes.length)
+    (ts ts' : TapeSt) (hts : ∀ d ∈ ts.tape, ∀ x, d = Draw.expo x → 0 < x) (s' : GState)
+    (hrun : run P infs recs tmin tmax fuel cfuel ts = .ok (s', ts')) :
+    transmissionsValid (if P.sis then sisSpec else sirSpec) (!P.sis) 0 P.nodes.length P.nbrs tmin infs
+      (histories tmin (initName infs recs) (gLog P s') P.nodes) (gTrans tmin infs s') = true :=
+  tv_run P h infs recs tmin tmax fuel cfuel hi him hdis hsis hrange ts ts'
+    (fun d hd x hx => le_of_lt (hts d hd x hx)) s' hrun
+
+end Gillespie
+
+/-! non-vacuity: on the weighted 4-node path `exP` of `Props/C01` (which satisfies `Gillespie.WF`), a tape with
+strictly positive waiting times makes `run` succeed with one transmission and one recovery, and the predicates
+evaluate to `true` on that output (as the theorems above say they must) -/
+def c04Tape : TapeSt :=
+  { tape := [.expo 1, .unif (99/100), .choice 0, .unif 0, .expo (1/2), .unif 0, .choice 0, .unif 0, .expo 100] }
+
+example : (match Gillespie.run exP [1, 3] [0] 0 (some 10) 5 5 c04Tape with
+    | .ok (s, _) =>
+      s.log == [(3/2, GEvent.recover 1), (1, GEvent.transmit 1 2)]
+      && Pred.wellFormed .sirCont 4 0 (some 10) false false (Invest.gTraj exP s)
+      && Pred.transmissionsValid Pred.sirSpec true 0 4 exP.nbrs 0 [1, 3]
+          (Invest.histories 0 (Gillespie.initName [1, 3] [0]) (Invest.gLog exP s) exP.nodes) (Invest.gTrans 0 [1, 3] s)
+    | .error _ => false) = true := by decide +kernel
